@@ -160,7 +160,23 @@ def _run(mod, pid, tier, t0):
     if not ok_driver:
         ob("lean:driver-build", False, "\n".join([l for l in out_drv.splitlines() if "error" in l][:10]) or out_drv[-400:])
     else:
-        corrs = mod.correspond(tier)
+        try:
+            corrs = mod.correspond(tier)
+        except (common.LeanError, OSError, TimeoutError):
+            raise
+        except Exception as ex:
+            # the REAL code raising where the harness did not expect it is a disagreement (the model says it runs);
+            # a crash that never touched the code under test is the machinery's own problem -> exit 2
+            tb = traceback.extract_tb(ex.__traceback__)
+            root = os.path.realpath(common.REPO)
+            in_code = [f for f in tb if os.path.realpath(f.filename).startswith(root + os.sep)]
+            if not in_code:
+                raise
+            c = Corr("harness-aborted", "n/a")
+            c.case("abort", True)
+            c.disagree(input="correspondence run", impl=f"real code raised {type(ex).__name__}: {ex} at {os.path.relpath(in_code[-1].filename, root)}:{in_code[-1].lineno}",
+                       model="no exception")
+            corrs = [c]
         for c in corrs:
             ob(f"correspondence:{c.name}", c.ok,
                c.error or (json.dumps(_jsonable(c.disagreements[0]))[:380] if c.disagreements else f"{c.evaluations} cases"))
